@@ -1,4 +1,149 @@
+/-
+C15 — kernel-checked witnesses of the known findings (known_findings.json) and of the defects repaired by
+`fix:` commits.  Every witness is evaluated in the kernel (`decide`) on the model of the code as it is now.
+
+Known findings (model ≠ Spec on a valid unit, confirmed on the real binary against gcc 12 by checklib/C15.py):
+* C15-inline-flags-frozen          `inline int f(void){..} extern inline int f(void);`     no external definition
+* C15-static-local-in-dead-inline  static local with an address constant inside an unreferenced static inline
+* C15-tentative-composite-size     `int c[]; extern int c[5];`                             size 4 instead of 20
+* C15-extern-init-after-static     `static int x; extern int x = 7;`                       emitted GLOBAL
+* C15-extern-tls-local-exec        non-PIC `extern _Thread_local` addressed with local exec
+-/
 import ChibiVerif.Model.Linkage
 import ChibiVerif.Spec.LinkageSpec
+import ChibiVerif.Lemmas.LinkageLemmas
+import ChibiVerif.Props.C15
+
 namespace ChibiVerif.Findings.C15
+open ChibiVerif.Linkage
+open ChibiVerif.Spec.Linkage
+open ChibiVerif.Gen.AddrForms
+open ChibiVerif.Props.C15
+
+def intTy : ObjTy := ⟨4, 4, false, false⟩
+
+/-- model and Spec disagree on the symbol table of `ds` (both `-fcommon` settings checked separately) -/
+def differs (fcommon : Bool) (ds : List Decl) : Bool :=
+  holdsOn (parseUnit ds) (fun gs =>
+    !((objectSymbols fcommon gs).all (fun e => (symbols fcommon ds).contains e) &&
+      (symbols fcommon ds).all (fun e => (objectSymbols fcommon gs).contains e)))
+
+/-! ### C15-inline-flags-frozen -/
+
+/-- `inline int f(void){ }  extern inline int f(void);`   (f = 0) -/
+def wInlineFrozen : List Decl :=
+  [ .func 0 1 false false true (some []), .func 0 1 false true true none ]
+
+theorem C15_finding_inline_flags_frozen :
+    valid wInlineFrozen = true ∧ inlineFrozenFinding wInlineFrozen = true ∧
+    -- C11 6.7.4p7: an external definition of f
+    symbols true wInlineFrozen = [⟨.named 0, .global, .text, none, 0⟩] ∧
+    -- chibicc: nothing
+    holdsOn (parseUnit wInlineFrozen) (fun gs => objectSymbols true gs == []) = true := by decide
+
+/-! ### C15-static-local-in-dead-inline -/
+
+/-- `static inline int f(void){ }  static inline int g(void){ static void *p = f; }  int main(void){ }`
+    (f = 0, g = 1, main = 2) -/
+def wDeadStaticLocal : List Decl :=
+  [ .func 0 1 true false true (some []),
+    .func 1 1 true false true (some [.staticLocal false ⟨8, 8, false, false⟩ (some [.ref (.fn 0)])]),
+    .func 2 4 false false false (some []) ]
+
+theorem C15_finding_static_local_in_dead_inline :
+    valid wDeadStaticLocal = true ∧ deadStaticLocalRegion wDeadStaticLocal = true ∧
+    -- the always-emitted anonymous datum mentions f, f is not emitted: `f` becomes an undefined global symbol
+    holdsOn (parseUnit wDeadStaticLocal) (fun gs =>
+      (objectSymbols true gs).contains ⟨.named 0, .global, .undef, none, 0⟩ &&
+      (emittedUses gs).contains (.named 0) && !liveFn gs 0) = true ∧
+    symbols true wDeadStaticLocal = [⟨.named 2, .global, .text, none, 0⟩] := by decide
+
+/-! ### C15-tentative-composite-size -/
+
+/-- `int c[]; extern int c[5];`   (c = 0) -/
+def wCompositeSize : List Decl :=
+  [ .obj 0 false false false ⟨4, 4, true, true⟩ none, .obj 0 false true false ⟨20, 4, true, false⟩ none ]
+
+theorem C15_finding_tentative_composite_size :
+    valid wCompositeSize = true ∧ compositeSizeRegion wCompositeSize = true ∧
+    symbols false wCompositeSize = [⟨.named 0, .global, .bss, some 20, 16⟩] ∧
+    holdsOn (parseUnit wCompositeSize) (fun gs => objectSymbols false gs == [⟨.named 0, .global, .bss, some 4, 4⟩]) = true := by
+  decide
+
+/-- the repaired part (`fix:` D10): `int a[]; int a[5];` has the composite size -/
+theorem C15_fixed_composite_of_tentatives :
+    holdsOn (parseUnit [ .obj 0 false false false ⟨4, 4, true, true⟩ none, .obj 0 false false false ⟨20, 4, true, false⟩ none ])
+      (fun gs => objectSymbols false gs == [⟨.named 0, .global, .bss, some 20, 16⟩]) = true := by decide
+
+/-! ### C15-extern-init-after-static -/
+
+/-- `static int x; extern int x = 7;`   (x = 0) -/
+def wExternInit : List Decl :=
+  [ .obj 0 true false false intTy none, .obj 0 false true false intTy (some []) ]
+
+theorem C15_finding_extern_init_after_static :
+    valid wExternInit = true ∧ externInitAfterStaticRegion wExternInit = true ∧
+    symbols true wExternInit = [⟨.named 0, .local, .data, some 4, 4⟩] ∧
+    holdsOn (parseUnit wExternInit) (fun gs => objectSymbols true gs == [⟨.named 0, .global, .data, some 4, 4⟩]) = true := by
+  decide
+
+/-! ### consequence for the full statement -/
+
+/-- the full symbol-table statement does not hold: `wInlineFrozen` is a valid unit on which the model's
+    table (empty) differs from the Spec's (a global definition of f) -/
+theorem C15_finding_symbols : ¬ C15_symbols_Statement := by
+  intro h
+  obtain ⟨gs, hp, hiff⟩ := h true wInlineFrozen (by decide)
+  have hmem : (⟨.named 0, .global, .text, none, 0⟩ : SymEntry) ∈ symbols true wInlineFrozen := by decide
+  have := (hiff _).mpr hmem
+  have hgs : parseUnit wInlineFrozen = .ok gs := hp
+  have hempty : holdsOn (parseUnit wInlineFrozen) (fun gs => objectSymbols true gs == []) = true := by decide
+  rw [hgs] at hempty
+  simp only [holdsOn, beq_iff_eq] at hempty
+  rw [hempty] at this
+  cases this
+
+/-! ### C15-extern-tls-local-exec -/
+
+/-- non-PIC, thread-local, not defined by the unit: `gen_addr` prints `mov %fs:0, %rax; add $t@tpoff, %rax` -/
+def wExternTls : VarCtx := ⟨false, false, false, true, false, false⟩
+
+theorem C15_finding_extern_tls :
+    ctxConsistent wExternTls = true ∧ externTlsRegion wExternTls = true ∧
+    addrForm wExternTls = some .tlsLE ∧ validForm (refCtxOf wExternTls) .tlsLE = false := by decide
+
+theorem C15_finding_addr_table : ¬ C15_addr_table_Statement := by
+  intro h
+  obtain ⟨f, hf, hv⟩ := h wExternTls (by decide)
+  have : addrForm wExternTls = some .tlsLE := by decide
+  rw [this] at hf
+  cases hf
+  revert hv
+  decide
+
+/-! ### repaired defects: the model of the code as it is now gives the C11 answer -/
+
+/-- D1: `int x; int x;` leaves one definition (was: none) -/
+theorem C15_fixed_two_tentatives :
+    holdsOn (parseUnit [ .obj 0 false false false intTy none, .obj 0 false false false intTy none ])
+      (fun gs => objectSymbols true gs == [⟨.named 0, .global, .common, some 4, 4⟩] &&
+                 objectSymbols false gs == [⟨.named 0, .global, .bss, some 4, 4⟩]) = true := by decide
+
+/-- D3: `_Thread_local int t; _Thread_local int t = 1;` is one definition in .tdata (was: two labels) -/
+theorem C15_fixed_tls_tentative :
+    holdsOn (parseUnit [ .obj 0 false false true intTy none, .obj 0 false false true intTy (some []) ])
+      (fun gs => objectSymbols true gs == [⟨.named 0, .global, .tdata, some 4, 4⟩]) = true := by decide
+
+/-- D7: `extern int e = 5;` is a definition -/
+theorem C15_fixed_extern_initializer :
+    holdsOn (parseUnit [ .obj 0 false true false intTy (some []) ])
+      (fun gs => objectSymbols true gs == [⟨.named 0, .global, .data, some 4, 4⟩]) = true := by decide
+
+/-- the first C15 fix (is_root recomputed on redeclaration):
+    `static inline int f(void); void *p = f; static inline int f(void){ }` emits f -/
+theorem C15_fixed_root_survives_redeclaration :
+    holdsOn (parseUnit [ .func 0 1 true false true none, .obj 1 false false false ⟨8, 8, false, false⟩ (some [.ref (.fn 0)]),
+                         .func 0 1 true false true (some []) ])
+      (fun gs => liveFn gs 0 && (emitText gs).map (·.sym) == [.named 0]) = true := by decide
+
 end ChibiVerif.Findings.C15
